@@ -358,6 +358,29 @@ pub struct FirstCfg {
     pub av1_obu: Option<Vec<u8>>,
     pub av1_expect: Option<Av1Expect>,
     pub vp9_expect: Option<Vp9Expect>,
+    /// H.264/H.265: the first frame as submitted and its units (for later frames that share a prefix with it)
+    pub first_raw: Vec<u8>,
+    pub first_units: Vec<Vec<u8>>,
+    pub first_types: Vec<u8>,
+}
+
+/// Index of the first PPS unit of the first frame (with an SPS before it) and the offset just behind it in the submitted bytes.
+fn shared_prefix_end(hevc: bool, fc: &FirstCfg) -> Option<(usize, usize)> {
+    let (sps_t, pps_t) = if hevc { (h265t::SPS, h265t::PPS) } else { (h264t::SPS, h264t::PPS) };
+    let k = fc.first_types.iter().position(|t| *t == pps_t)?;
+    if !fc.first_types[..k].contains(&sps_t) || k >= fc.first_units.len() {
+        return None;
+    }
+    // the units were emitted in order: locate each one behind the previous one
+    let mut cur = 0usize;
+    for u in &fc.first_units[..=k] {
+        if u.is_empty() {
+            return None;
+        }
+        let at = fc.first_raw[cur..].windows(u.len()).position(|w| w == &u[..])?;
+        cur += at + u.len();
+    }
+    Some((k, cur))
 }
 
 pub fn ccfg(g: &CfgGene) -> CCfg {
@@ -428,6 +451,52 @@ pub fn video_frame(cfg: &CfgGene, g: &VGene, idx: usize, first: bool, fc: &mut F
             let exp = length_prefixed(&[raw.clone()]);
             (raw, exp)
         }
+        c @ (0 | 1) if !first && g.key && g.size % 16 == 7 && g.big == 0 && !fc.first_raw.is_empty() && shared_prefix_end(c == 1, fc).is_some() => {
+            // a later keyframe that repeats the FIRST frame byte for byte up to the end of its first PPS and then goes on
+            // differently: the PPS continues with two more bytes (a new PPS that has the old one as a prefix), or a new slice
+            // follows at once (a cache keyed on the leading bytes must not replay the old conversion)
+            let hevc = c == 1;
+            let (k, end) = shared_prefix_end(hevc, fc).unwrap();
+            let mut raw = fc.first_raw[..end].to_vec();
+            let mut units: Vec<Vec<u8>> = fc.first_units[..=k].to_vec();
+            // zeros at the very end of the first frame counted as part of its last unit; in front of a start code they would
+            // be part of that start code instead, so the shared prefix stops before them
+            while units[k].len() > 1 && units[k].last() == Some(&0) {
+                units[k].pop();
+                raw.pop();
+            }
+            if sh & 1 != 0 {
+                let ext = [0x2c | (sh & 0x80), 0x40 | ((sh >> 1) & 0x3f)];
+                raw.extend_from_slice(&ext);
+                units[k].extend_from_slice(&ext);
+            }
+            let slice_t = if hevc { h265t::IDR_W } else { h264t::IDR };
+            let fr = AnnexBFrame { nals: vec![NalGene { typ: slice_t, len: size, fill: sh >> 6, sc4: sh & 2 != 0, aux: 2 }], lead_zeros: 0, trail_zeros: 0 };
+            let (b2, u2) = fr.build(hevc, tag);
+            raw.extend_from_slice(&b2);
+            units.extend(u2);
+            let exp = length_prefixed(&units);
+            (raw, exp)
+        }
+        c @ (0 | 1) if !first && !g.key && g.size % 64 == 22 && g.big == 0 && fc.sps.is_some() && fc.pps.is_some() => {
+            // a buffer that holds nothing but the parameter sets of the first keyframe, byte for byte (the "codec config" buffer
+            // that some capture stacks deliver again in front of every IDR picture): a frame like any other
+            let mut units: Vec<Vec<u8>> = Vec::new();
+            if c == 1 {
+                if let Some(v) = &fc.vps {
+                    units.push(v.clone());
+                }
+            }
+            units.push(fc.sps.clone().unwrap());
+            units.push(fc.pps.clone().unwrap());
+            let mut raw = Vec::new();
+            for (i, u) in units.iter().enumerate() {
+                raw.extend_from_slice(if (i + sh as usize) % 2 == 0 { &[0, 0, 0, 1][..] } else { &[0, 0, 1][..] });
+                raw.extend_from_slice(u);
+            }
+            let exp = length_prefixed(&units);
+            (raw, exp)
+        }
         c @ (0 | 1) => {
             let hevc = c == 1;
             let sc = |i: usize| if sh & 32 != 0 { (i + sh as usize) % 2 == 0 } else { sh & 1 != 0 };
@@ -482,6 +551,18 @@ pub fn video_frame(cfg: &CfgGene, g: &VGene, idx: usize, first: bool, fc: &mut F
                     }
                 }
             }
+            // variant 4: the sets FOLLOW the (first) slice inside the buffer ([IDR][SPS][PPS]): they are still in the frame
+            let sets_after_slice = with_cfg && (g.size / 5) % 5 == 4 && g.size % 3 == 0;
+            let held: Vec<NalGene> = if sets_after_slice {
+                let keep = nals.iter().take_while(|n| { let t = if hevc { n.typ & 0x3f } else { n.typ & 0x1f }; if hevc { !(32..=34).contains(&t) } else { t != 7 && t != 8 } }).count();
+                nals.split_off(keep)
+            } else {
+                Vec::new()
+            };
+            let mut push = |typ: u8, len: u16, fill: u8, aux: u8| {
+                let i = nals.len();
+                nals.push(NalGene { typ, len, fill, sc4: sc(i), aux });
+            };
             let slice_t = if g.key || first {
                 if hevc {
                     [h265t::IDR_W, h265t::IDR_N, h265t::CRA][(sh % 3) as usize]
@@ -493,7 +574,12 @@ pub fn video_frame(cfg: &CfgGene, g: &VGene, idx: usize, first: bool, fc: &mut F
             } else {
                 h264t::SLICE
             };
-            if sh & 16 != 0 && size > 4 {
+            // one first frame in 32 is the bare "codec config" buffer: the parameter sets and no slice at all (some encoders hand
+            // it over as a buffer of its own before the first picture); the library takes it as the first sample
+            let config_only = first && g.size % 32 == 13 && g.big == 0;
+            if config_only {
+                // nothing
+            } else if sh & 16 != 0 && size > 4 {
                 push(slice_t, size / 2, sh >> 6, 2);
                 push(slice_t, size - size / 2, (sh >> 6) + 1, 2);
             } else {
@@ -503,6 +589,7 @@ pub fn video_frame(cfg: &CfgGene, g: &VGene, idx: usize, first: bool, fc: &mut F
                 // filler data after the slices (H.264 type 12, H.265 type 38): 0xFF padding and the trailing bits
                 push(if hevc { 38 } else { 12 }, 3 + (sh as u16 % 40), 254, 0);
             }
+            nals.extend(held);
             let fr = AnnexBFrame {
                 nals,
                 lead_zeros: if sh & 64 != 0 { 1 + (sh & 1) } else { 0 },
@@ -524,6 +611,11 @@ pub fn video_frame(cfg: &CfgGene, g: &VGene, idx: usize, first: bool, fc: &mut F
                 bytes.extend_from_slice(&[0, 0, 1]);
                 bytes.extend_from_slice(&nal);
                 units.push(nal);
+            }
+            if first && g.big == 0 {
+                fc.first_raw = bytes.clone();
+                fc.first_units = units.clone();
+                fc.first_types = fr.nals.iter().map(|n| n.typ).collect();
             }
             if first {
                 for (gn, u) in fr.nals.iter().zip(units.iter()) {
@@ -579,7 +671,18 @@ pub fn video_frame(cfg: &CfgGene, g: &VGene, idx: usize, first: bool, fc: &mut F
                 len: size,
                 fill: sh >> 6,
             });
-            let fr = Av1Frame { obus, seq: Some(cfg.av1.clone().unwrap_or_else(Av1Seq::simple)) };
+            // half of the later keyframes that carry a sequence header carry ANOTHER valid one (an encoder reconfiguration):
+            // the record still describes the first
+            let seq = if !first && sh & 32 != 0 {
+                let mut s2 = Av1Seq::simple();
+                s2.w_m1 = 100 + (idx as u32 % 1000);
+                s2.h_m1 = 50 + (sh as u32 % 7);
+                s2.cdef = !s2.cdef;
+                s2
+            } else {
+                cfg.av1.clone().unwrap_or_else(Av1Seq::simple)
+            };
+            let fr = Av1Frame { obus, seq: Some(seq) };
             let (mut bytes, seq_obu) = fr.build(tag);
             if first {
                 fc.av1_obu = seq_obu;
@@ -1133,8 +1236,8 @@ pub fn cfg_strategy() -> impl Strategy<Value = CfgGene> {
         prop_oneof![3 => Just(0u8), 4 => 1u8..7, 2 => Just(7u8)],
         0u8..13,
         0u8..8,
-        prop_oneof![3 => 16u16..4097, 1 => 1u16..=65535],
-        prop_oneof![3 => 16u16..2161, 1 => 1u16..=65535],
+        prop_oneof![6 => 16u16..4097, 2 => 1u16..=65535, 1 => proptest::sample::select(vec![1000u16, 1001, 1024, 1080, 1920, 720, 1280, 480, 640, 255, 256, 257, 90, 900, 9000, 48000, 44100])],
+        prop_oneof![6 => 16u16..2161, 2 => 1u16..=65535, 1 => proptest::sample::select(vec![1000u16, 1001, 1024, 1080, 1920, 720, 1280, 480, 640, 255, 256, 257, 90, 900, 9000, 48000, 44100])],
         any::<bool>(),
         option::weighted(0.3, title_strategy()),
         option::weighted(0.3, prop_oneof![8 => 0u64..4_102_444_800, 8 => 0u64..253_402_300_800, 1 => 253_402_300_800u64..=u64::MAX, 1 => Just(1_759_536_000_000u64), 1 => Just(253_402_300_800u64)]),
@@ -1155,6 +1258,13 @@ pub fn cfg_strategy() -> impl Strategy<Value = CfgGene> {
             lang,
             av1,
             vp9,
+        })
+        .prop_map(|mut g| {
+            // one configuration in eight is square (numeric coincidence of two independent fields)
+            if g.width % 8 == 3 {
+                g.height = g.width;
+            }
+            g
         })
 }
 
@@ -1190,7 +1300,7 @@ pub fn valid_case_strategy(maxv: usize, maxa: usize) -> impl Strategy<Value = Va
     (
         (any::<bool>(), cfg_strategy()),
         prop_oneof![2 => Just(0u64), 2 => 0u64..1_000_000, 1 => 0u64..40_000_000_000],
-        prop_oneof![2 => Just(0u32), 1 => 1u32..3, 2 => 0u32..200_000, 1 => 0u32..60_000_000],
+        prop_oneof![8 => Just(0u32), 4 => 1u32..3, 8 => 0u32..200_000, 4 => 0u32..60_000_000, 1 => (u32::MAX - 400_000)..=u32::MAX, 1 => any::<u32>()],
         vec(vgene_strategy(true), 0..=maxv),
         vec(agene_strategy(), 0..=maxa),
         option::weighted(0.3, prop_oneof![Just(3000u32), Just(3003u32), Just(3750u32), Just(1500u32), 1u32..100000]),
@@ -1265,6 +1375,15 @@ pub fn valid_case_strategy(maxv: usize, maxa: usize) -> impl Strategy<Value = Va
                     for g in c.video.iter_mut() {
                         g.cts = d;
                     }
+                }
+                // the audio starts around the END of the video (a late commentary, a tail of room tone): first audio packet
+                // within two frames of the last video sample's decode / presentation time (4 % of the cases)
+                if r % 100 >= 21 && r % 100 < 25 && c.video.len() >= 2 {
+                    let span: u64 = c.video.iter().skip(1).map(|g| c.const_rate.unwrap_or(g.ddts) as u64).sum();
+                    let last = c.video.last().map(|g| g.cts).unwrap_or(0);
+                    let wiggle = [0i64, 1, -1, 1500, -1500, 3000, -3000, 4500, -4500, 6000][(r as usize >> 8) % 10];
+                    let target = span as i64 + if r & 0x4000 != 0 { last } else { 0 } + wiggle;
+                    c.a_off = target.clamp(0, u32::MAX as i64) as u32;
                 }
                 // dictionary: timestamps whose bytes spell a box type (a byte search for a fourcc must not hit them)
                 if r % 100 >= 97 {
